@@ -214,7 +214,10 @@ func VerifC08_BatchExpiry() {
 	if sameBlock {
 		rc.RepeatedFrequency = uint64(svTimeout)
 	}
-	rc.RepeatedTotal = -1
+	// a repeated context runs for ever (total -1), has reached its total with this batch (total 1, counter 1), or
+	// is still below it (total 2)
+	rc.RepeatedTotal = []int64{-1, 1, 2}[verifChoice("total", 3)]
+	lastBatch := repeated && rc.RepeatedTotal == 1
 	e.bank.fund(e.consumer, svDenom, sdkmath.NewInt(1000000))
 	fee1, fee2 := verifIntIn("fee1", one, w), verifIntIn("fee2", one, w)
 	h0 := svHeight - svTimeout
@@ -251,13 +254,13 @@ func VerifC08_BatchExpiry() {
 	}
 	// when the next batch starts in this very block the consumer also pays that batch's fees
 	newFees := big.NewInt(0)
-	if sameBlock {
+	if sameBlock && !lastBatch {
 		_, newFees = e.batchRequests(2)
 	}
 	verifAssert(verifSub(e.bal(e.consumer), c0).Cmp(verifSub(refund, newFees)) == 0, "each expired request's fee goes entirely back to the consumer, once")
 	verifAssert(verifSub(r0, e.reqEscrow()).Cmp(verifSub(refund, newFees)) == 0, "refunds come out of the request escrow")
 	verifAssert(!e.k.IsRequestActive(e.ctx, id1) && !e.k.IsRequestActive(e.ctx, id2), "no request stays active after its expiration height")
-	verifAssert(sameBlock || !e.k.HasRequestBatchExpiration(e.ctx, e.ctxID), "the expiration entry is consumed")
+	verifAssert((sameBlock && !lastBatch) || !e.k.HasRequestBatchExpiration(e.ctx, e.ctxID), "the expiration entry is consumed")
 	verifAssert(!e.store().Has(types.GetExpiredRequestBatchKey(e.ctxID, svHeight)), "no expiration entry at the current height remains")
 	// slashing: floor(deposit*fraction) per expired request, deposit escrow -> fee pool, binding reduced by the same
 	e18 := verifPow10(18)
@@ -280,6 +283,8 @@ func VerifC08_BatchExpiry() {
 	_, still := e.k.GetRequestContext(e.ctx, e.ctxID)
 	if !repeated {
 		verifAssert(!still, "a one-shot context is removed after its batch")
+	} else if lastBatch {
+		verifAssert(!still && !e.k.HasNewRequestBatch(e.ctx, e.ctxID) && !e.store().Has(types.GetNewRequestBatchKey(e.ctxID, svHeight)), "a repeated context that has issued its total is removed after its last batch: no further batch")
 	} else if !sameBlock {
 		verifAssert(still && e.k.HasNewRequestBatch(e.ctx, e.ctxID), "a repeated context below its total schedules its next batch")
 	} else {
